@@ -29,6 +29,64 @@ func stringModels(t *tbl) {
 	s1 := func(f func(string) string) func(*absint.Interp, []absint.Value) absint.Value {
 		return func(ip *absint.Interp, a []absint.Value) absint.Value { return absint.Str(f(str(a[0]))) }
 	}
+	// strings.Builder, literally: the text written so far per builder object (opaque once something non-literal went in)
+	type bstate struct {
+		text   string
+		opaque bool
+	}
+	builders := map[absint.Value]*bstate{}
+	bof := func(v absint.Value) *bstate {
+		b := builders[v]
+		if b == nil {
+			b = &bstate{}
+			builders[v] = b
+		}
+		return b
+	}
+	t.ext["(*strings.Builder).WriteString"] = func(ip *absint.Interp, a []absint.Value) absint.Value {
+		b := bof(a[0])
+		if x, ok := a[1].(absint.Str); ok && !b.opaque {
+			b.text += string(x)
+			return absint.Tuple{absint.Int(len(x)), absint.Nil{}}
+		}
+		b.opaque = true
+		return absint.Tuple{&absint.Opaque{Why: "n"}, absint.Nil{}}
+	}
+	t.ext["(*strings.Builder).WriteByte"] = func(ip *absint.Interp, a []absint.Value) absint.Value {
+		b := bof(a[0])
+		if x, ok := a[1].(absint.Int); ok && !b.opaque {
+			b.text += string([]byte{byte(x)})
+		} else {
+			b.opaque = true
+		}
+		return absint.Nil{}
+	}
+	t.ext["(*strings.Builder).WriteRune"] = func(ip *absint.Interp, a []absint.Value) absint.Value {
+		b := bof(a[0])
+		if x, ok := a[1].(absint.Int); ok && !b.opaque {
+			b.text += string(rune(x))
+		} else {
+			b.opaque = true
+		}
+		return absint.Tuple{&absint.Opaque{Why: "n"}, absint.Nil{}}
+	}
+	t.ext["(*strings.Builder).String"] = func(ip *absint.Interp, a []absint.Value) absint.Value {
+		if b := bof(a[0]); !b.opaque {
+			return absint.Str(b.text)
+		}
+		return &absint.Opaque{Why: "text"}
+	}
+	t.ext["(*strings.Builder).Len"] = func(ip *absint.Interp, a []absint.Value) absint.Value {
+		if b := bof(a[0]); !b.opaque {
+			return absint.Int(len(b.text))
+		}
+		return &absint.Opaque{Why: "length"}
+	}
+	t.ext["(*strings.Builder).Grow"] = func(ip *absint.Interp, a []absint.Value) absint.Value { return nil }
+	t.ext["(*strings.Builder).Reset"] = func(ip *absint.Interp, a []absint.Value) absint.Value {
+		*bof(a[0]) = bstate{}
+		return nil
+	}
 	t.ext["strings.ToUpper"] = s1(strings.ToUpper)
 	t.ext["strings.ToLower"] = s1(strings.ToLower)
 	t.ext["strings.TrimSpace"] = s1(strings.TrimSpace)
